@@ -12,7 +12,6 @@ use frost_core::serde::de::DeserializeOwned;
 use frost_core::serde::Serialize;
 use serde_json::json;
 
-use crate::c12::scenario_json_members_required;
 use crate::common::*;
 use crate::rng::TestRng;
 use crate::{scn, Scenario};
@@ -24,8 +23,6 @@ pub fn scenarios() -> Vec<Scenario> {
         scn!(scenario_refresh_dkg_resume, 3),
         scn!(scenario_large_state, 1),
         scn!(scenario_boundary_state_resume, 3),
-        // a stored document that lost a member is refused, never completed with defaults (seeded2/C03_3)
-        scn!(scenario_json_members_required, 1),
     ]
 }
 
